@@ -12,7 +12,7 @@
       lR, lC, lL   live routers / clusters / listeners
       sR, sC, sL   stored configuration
    The property: what the live objects answer == what objects freshly built from the stored
-   configuration answer (Coherent), the last update wins, removed objects are gone, an endpoint
+   configuration answer (Coherent), the last update wins (also for the attributes of a host address named again), removed objects are gone, an endpoint
    assignment is the union of its localities, failed operations change nothing.
    `Defects` switches on the named ways this design can go wrong (the *_defect cfgs must be rejected). *)
 EXTENDS Integers, Sequences, FiniteSets, TLC, Json
@@ -27,7 +27,8 @@ CONSTANTS Routers,    \* router configuration names
           Doms,       \* domains used by AddRoute / RemoveAllRoutes
           Rts,        \* names of single routes used by AddRoute (see RtDef)
           Lbs,        \* load balancer types used as cluster configuration variants
-          HostSets,   \* host sets used as arguments
+          HostSets,   \* sets of host addresses used as arguments
+          Attrs,      \* attribute classes of a host (a1 = weight 1 / version v1, a2 = weight 2 / version v2)
           LocLists,   \* names of locality lists used by UpdateEndpoints (see LocDef)
           Defects
 
@@ -47,12 +48,13 @@ RouterCfg(k) ==
     [] k = "E" -> << >>                                                      \* no virtual host: table cannot be built
     [] k = "D" -> << VH("*", << Rt("/", "c1") >>), VH("*", << Rt("/", "c2") >>) >>   \* duplicate default: invalid
 RtDef(n) == CASE n = "x1" -> Rt("/x", "c1") [] n = "s2" -> Rt("/", "c2") [] n = "x2" -> Rt("/x", "c2") [] n = "s1" -> Rt("/", "c1")
-LocDef(n) ==
+Uni(S, a) == [h \in S |-> a]          \* the host map giving every address of S the attribute class a
+LocDef(n, a) ==
   CASE n = "L0" -> << >>
-    [] n = "L1" -> << {"h1"} >>
-    [] n = "L2" -> << {"h1"}, {"h2"} >>
-    [] n = "L3" -> << {"h1", "h2"}, {"h3"} >>
-    [] n = "L2e" -> << {"h2"}, {} >>          \* a locality without endpoints after one with endpoints
+    [] n = "L1" -> << Uni({"h1"}, a) >>
+    [] n = "L2" -> << Uni({"h1"}, a), Uni({"h2"}, a) >>
+    [] n = "L3" -> << Uni({"h1", "h2"}, a), Uni({"h3"}, a) >>
+    [] n = "L2e" -> << Uni({"h2"}, a), Uni({}, a) >>      \* a locality without endpoints after one with endpoints
 
 (* probe requests: <<Host header, path>> *)
 Probes == << <<"a.com", "/x">>, <<"a.com", "/y">>, <<"zz.com", "/x">>, <<"zz.com", "/y">> >>
@@ -128,10 +130,14 @@ DoRmRoutes(r, dom) ==
   /\ Same(<<lC, sC, lL, sL>>)
 
 (* ---------------- clusters ---------------- *)
-(* a host set is a set: NewHostSet keeps one host per address *)
+(* a host set maps each member address to its attributes (weight, metadata ...): NewHostSet keeps one host
+   per address, and for an address named again by a later update the LAST update wins *)
+NoHosts == [h \in {} |-> "a1"]
+Merge(old, new) == [h \in DOMAIN old \cup DOMAIN new |-> IF h \in DOMAIN new THEN new[h] ELSE old[h]]
+Without(f, S) == [h \in DOMAIN f \ S |-> f[h]]
 RECURSIVE UnionLocs(_)
-UnionLocs(locs) == IF Len(locs) = 0 THEN {} ELSE Head(locs) \cup UnionLocs(Tail(locs))
-AbsentC == [st |-> "absent", lb |-> "", hosts |-> {}]
+UnionLocs(locs) == IF Len(locs) = 0 THEN NoHosts ELSE Merge(UnionLocs(Tail(locs)), Head(locs))
+AbsentC == [st |-> "absent", lb |-> "", hosts |-> NoHosts]
 OkC(lb, hs) == [st |-> "ok", lb |-> lb, hosts |-> hs]
 BuildC(s) == s     \* NewCluster(cfg) + UpdateClusterHosts(cfg.hosts)
 ViewC(c) == c
@@ -143,9 +149,9 @@ Refresh(c, newLive) == IF "HostsNotRecorded" \in Defects /\ sC[c].st = "ok"
 
 (* AddOrUpdatePrimaryCluster: new cluster object, hosts inherited from the old one *)
 DoPrimary(c, lb) ==
-  LET nl == OkC(lb, IF lC[c].st = "ok" THEN lC[c].hosts ELSE {}) IN
+  LET nl == OkC(lb, IF lC[c].st = "ok" THEN lC[c].hosts ELSE NoHosts) IN
   /\ lC' = [lC EXCEPT ![c] = nl]
-  /\ sC' = [sC EXCEPT ![c] = IF "PrimaryForgetsHosts" \in Defects THEN OkC(lb, {}) ELSE nl]
+  /\ sC' = [sC EXCEPT ![c] = IF "PrimaryForgetsHosts" \in Defects THEN OkC(lb, NoHosts) ELSE nl]
   /\ err' = FALSE /\ Same(<<lR, sR, lL, sL>>)
 
 (* AddOrUpdateClusterAndHost: new cluster object with exactly these hosts *)
@@ -162,9 +168,10 @@ HostOp(c, newHosts) ==
           /\ err' = FALSE
   /\ Same(<<lR, sR, lL, sL>>)
 
-DoUpdHosts(c, S) == HostOp(c, S)
-DoAppend(c, S)   == HostOp(c, lC[c].hosts \cup S)
-DoRmHosts(c, S)  == HostOp(c, lC[c].hosts \ S)
+DoUpdHosts(c, H) == HostOp(c, H)
+(* AppendClusterHosts: an appended host replaces a present host with the same address *)
+DoAppend(c, H)   == HostOp(c, IF "AppendKeepsOld" \in Defects THEN Merge(H, lC[c].hosts) ELSE Merge(lC[c].hosts, H))
+DoRmHosts(c, S)  == HostOp(c, Without(lC[c].hosts, S))
 
 (* RemovePrimaryCluster(names...): all or nothing *)
 DoRmCluster(CS) ==
@@ -192,6 +199,9 @@ DoRmListener(n) ==       \* DeleteListener: unknown names are accepted silently
   /\ err' = FALSE /\ Same(<<lR, sR, lC, sC>>)
 
 (* ---------------- behaviours ---------------- *)
+(* arguments: every address set with one attribute class for all its members *)
+HostMaps == { Uni(S, a) : S \in HostSets, a \in Attrs }
+LocArgs == { LocDef(n, a) : n \in LocLists, a \in Attrs }
 Init == /\ lR = [r \in Routers |-> AbsentR] /\ sR = [r \in Routers |-> AbsentR]
         /\ lC = [c \in Clusters |-> AbsentC] /\ sC = [c \in Clusters |-> AbsentC]
         /\ lL = [n \in Listeners |-> AbsentL] /\ sL = [n \in Listeners |-> AbsentL]
@@ -210,18 +220,18 @@ Next ==
           DoRmRoutes(r, d) /\ Log([op |-> "rmroutes", r |-> r, dom |-> d])
      \/ "primary" \in Ops /\ \E c \in Clusters, lb \in Lbs :
           DoPrimary(c, lb) /\ Log([op |-> "primary", c |-> c, lb |-> lb])
-     \/ "clusterhosts" \in Ops /\ \E c \in Clusters, lb \in Lbs, S \in HostSets :
-          DoClusterHosts(c, lb, S) /\ Log([op |-> "clusterhosts", c |-> c, lb |-> lb, hs |-> S])
-     \/ "updhosts" \in Ops /\ \E c \in Clusters, S \in HostSets :
-          DoUpdHosts(c, S) /\ Log([op |-> "updhosts", c |-> c, hs |-> S])
-     \/ "append" \in Ops /\ \E c \in Clusters, S \in HostSets \ {{}} :
-          DoAppend(c, S) /\ Log([op |-> "append", c |-> c, hs |-> S])
+     \/ "clusterhosts" \in Ops /\ \E c \in Clusters, lb \in Lbs, H \in HostMaps :
+          DoClusterHosts(c, lb, H) /\ Log([op |-> "clusterhosts", c |-> c, lb |-> lb, hs |-> H])
+     \/ "updhosts" \in Ops /\ \E c \in Clusters, H \in HostMaps :
+          DoUpdHosts(c, H) /\ Log([op |-> "updhosts", c |-> c, hs |-> H])
+     \/ "append" \in Ops /\ \E c \in Clusters, H \in HostMaps \ {NoHosts} :
+          DoAppend(c, H) /\ Log([op |-> "append", c |-> c, hs |-> H])
      \/ "rmhosts" \in Ops /\ \E c \in Clusters, S \in HostSets \ {{}} :
           DoRmHosts(c, S) /\ Log([op |-> "rmhosts", c |-> c, hs |-> S])
      \/ "rmcluster" \in Ops /\ \E CS \in (SUBSET Clusters) \ {{}} :
           DoRmCluster(CS) /\ Log([op |-> "rmcluster", cs |-> CS])
-     \/ "endpoints" \in Ops /\ \E c \in Clusters, n \in LocLists :
-          DoEndpoints(c, LocDef(n)) /\ Log([op |-> "endpoints", c |-> c, locs |-> LocDef(n)])
+     \/ "endpoints" \in Ops /\ \E c \in Clusters, L \in LocArgs :
+          DoEndpoints(c, L) /\ Log([op |-> "endpoints", c |-> c, locs |-> L])
      \/ "listener" \in Ops /\ \E n \in Listeners, v \in {"v1", "v2"} :
           DoListener(n, v) /\ Log([op |-> "listener", n |-> n, v |-> v])
      \/ "rmlistener" \in Ops /\ \E n \in Listeners :
@@ -243,20 +253,22 @@ LastUpdateWins ==
   /\ Done("primary") => lC[Last.c].st = "ok" /\ lC[Last.c].lb = Last.lb /\ lC[Last.c].hosts = pre[3][Last.c].hosts
   /\ Done("clusterhosts") => lC[Last.c] = OkC(Last.lb, Last.hs) /\ sC[Last.c] = OkC(Last.lb, Last.hs)
   /\ Done("updhosts") => lC[Last.c].hosts = Last.hs /\ sC[Last.c].hosts = Last.hs
+  /\ Done("append") => \A h \in DOMAIN Last.hs : lC[Last.c].hosts[h] = Last.hs[h] /\ sC[Last.c].hosts[h] = Last.hs[h]
   /\ Done("listener") => lL[Last.n] = Last.v /\ sL[Last.n] = Last.v
 
 RemovedGone ==
   /\ Done("rmcluster") => \A c \in Last.cs : lC[c].st = "absent" /\ sC[c].st = "absent"
   /\ Done("rmlistener") => lL[Last.n] = AbsentL /\ sL[Last.n] = AbsentL
-  /\ Done("rmhosts") => lC[Last.c].hosts \cap Last.hs = {} /\ sC[Last.c].hosts \cap Last.hs = {}
-  /\ Done("append") => Last.hs \subseteq lC[Last.c].hosts /\ pre[3][Last.c].hosts \subseteq lC[Last.c].hosts
+  /\ Done("rmhosts") => DOMAIN lC[Last.c].hosts \cap Last.hs = {} /\ DOMAIN sC[Last.c].hosts \cap Last.hs = {}
+  /\ Done("append") => DOMAIN lC[Last.c].hosts = DOMAIN pre[3][Last.c].hosts \cup DOMAIN Last.hs
   /\ (Done("rmroutes") /\ lR[Last.r].st = "ok") =>
         LET i == FindVH(lR[Last.r].vhs, Last.dom) IN
           /\ lR[Last.r].vhs[i].routes = << >>
           /\ BuildR(sR[Last.r]).vhs[i].routes = << >>
 
 EndpointsUnion ==
-  Done("endpoints") => /\ lC[Last.c].hosts = UNION { Last.locs[i] : i \in DOMAIN Last.locs }
+  Done("endpoints") => /\ DOMAIN lC[Last.c].hosts = UNION { DOMAIN Last.locs[i] : i \in DOMAIN Last.locs }
+                       /\ \A i \in DOMAIN Last.locs : \A h \in DOMAIN Last.locs[i] : lC[Last.c].hosts[h] = Last.locs[i][h]
                        /\ sC[Last.c].hosts = lC[Last.c].hosts
 
 (* an operation that reports an error changes nothing; an operation changes only the family it names *)
